@@ -1021,13 +1021,14 @@ def spectral_models(ctx, model, rng):
         nd = 1 if rng.random() < 0.55 else 2
         dims = [int(rng.integers(1, 6))] if nd == 1 else [int(rng.integers(1, 4)), int(rng.integers(1, 4))]
         n = int(np.prod(dims))
-        batch = ["none", "none", "filters", "both", "singleton"][int(rng.integers(5))]
+        batch = ["none", "none", "filters", "both", "singleton", "filters-singleton"][int(rng.integers(6))]
         k = int(rng.integers(2, 4)) if batch != "none" else 1
+        k2 = int(rng.integers(2, 4)) if batch == "filters-singleton" else 1
         hdt = [G.R64, G.C128][int(rng.integers(2))]
         idt = hdt if rng.random() < 0.6 else [G.R64, G.C128][int(rng.integers(2))]
         mode = ["plain", "center-int", "center-frac", "is-dft"][int(rng.integers(4))]
         kw = {}
-        bsh = [k] if batch != "none" else []
+        bsh = ([k, k2] if batch == "filters-singleton" else [k]) if batch != "none" else []
         if mode == "is-dft":
             h = G.dy(rng, tuple(bsh + dims), True)
             kw["h_is_dft"] = True
@@ -1040,7 +1041,9 @@ def spectral_models(ctx, model, rng):
                 kw["h_center"] = [int(rng.integers(0, l)) for l in L]
             elif mode == "center-frac":
                 kw["h_center"] = [float([0.5, 1.25, -0.75, 2.5][int(rng.integers(4))]) for _ in L]
-        ishape = {"none": dims, "filters": dims, "both": [k] + dims, "singleton": [1] + dims}[batch]
+        # filters-singleton: h has a leading batch axis beyond the input rank AND an axis broadcast against a singleton input axis
+        ishape = {"none": dims, "filters": dims, "both": [k] + dims, "singleton": [1] + dims, "filters-singleton": [1] + dims}[batch]
+        k = k * k2
         with warnings.catch_warnings():
             warnings.simplefilter("ignore")
             A = linop.CircularConvolve(harr, tuple(ishape), ndims=nd, input_dtype=idt, jit=False, **kw)
